@@ -348,6 +348,12 @@ where
                     Err(nom::Err::Error(err)) => affected_error(err.input),
                     Err(_) => panic!("Incomplete data"),
                 }
+            } else if input.location_offset() != input.token_change.new_token_pos(this_range.start)
+            {
+                // There are unconsumed tokens in front of this node
+                // (or tokens of this node were consumed by someone else).
+                // It must not be reused in a place where it does not belong.
+                affected_error(input)
             } else {
                 fn remove_messages(info: &mut AstInfo) {
                     info.errors.retain(|err| {
@@ -415,7 +421,10 @@ where
         let mut acc = Vec::new();
         let parsers = inner_parser.unwrap_or_default();
         for parser in parsers {
-            let parser_start = parser.to_range().shift(parser.offset).start;
+            // the ranges of the old nodes are relative to the enclosing reference,
+            // while token positions and the token change are absolute
+            let parser_start =
+                parser.to_range().shift(parser.offset).start + input.get_old_reference();
             let (i, _) = match handle_insertions(input.clone(), parser_start, &mut acc) {
                 Ok(result) => result,
                 Err(nom::Err::Error(err)) => return Ok((err.input, acc)),
